@@ -133,6 +133,7 @@ struct RecUp : public ::babylon::PageAllocator {
         continue;
       }
       memset(p, 0xDD, kPage);
+      asm volatile("" : : "r"(p) : "memory");  // keep the poison store (dead-store elimination before free)
       ::free(p);
     }
     n_free.fetch_add(num, std::memory_order_relaxed);
@@ -375,7 +376,7 @@ void run_pages(uint64_t seed, uint64_t e) {
   // the compensating paths busy-wait (no yield while the opposite party "is on its way"): keep the
   // thread count near the core count and never pin the process to fewer CPUs than threads
   int threads = r.chance(1, 6) ? int(r.range(9, 12)) : int(r.range(2, 8));
-  uint64_t nops = r.range(50, 600);
+  uint64_t nops = r.range(50, 400);
   int rounds = int(r.range(1, 3));
   std::string pol = vf::draw_policy(r, {"bq:compensate", "cb:c17_upstream_allocate", "cb:c17_upstream_deallocate", "bq:push_n_ticket",
                                         "bq:pop_n_ticket", "bq:try_n_before_cas", "bq:batch_versions_stored"}, 300, 3000);
@@ -732,8 +733,8 @@ int main(int argc, char** argv) {
   };
   wd.start();
   uint64_t n_pages = 0, n_strict = 0, n_auto = 0;
-  if (mode == "all") { n_pages = vf::budget(70, 4000); n_strict = vf::budget(30, 1500); n_auto = vf::budget(30, 1500); }
-  else if (mode == "pages") n_pages = vf::budget(70, 4000);
+  if (mode == "all") { n_pages = vf::budget(36, 4000); n_strict = vf::budget(30, 1500); n_auto = vf::budget(30, 1500); }
+  else if (mode == "pages") n_pages = vf::budget(36, 4000);
   else if (mode == "pool-strict") n_strict = vf::budget(30, 1500);
   else if (mode == "pool-auto") n_auto = vf::budget(30, 1500);
   uint64_t e = 0;
